@@ -43,7 +43,17 @@ def known_names() -> Set[str]:
             if os.path.basename(f) == "inline.py":
                 continue
             with open(f, "r", encoding="utf-8") as fh:
-                names.update(re.findall(r"[A-Za-z_][A-Za-z0-9_]*", fh.read()))
+                src = fh.read()
+            # the self-validation variants (text edits of the library, at the bottom of each rule module) are not rules: a helper that only a
+            # variant introduces must stay inlinable
+            try:
+                tree = ast.parse(src)
+                tree.body = [n for n in tree.body if not (isinstance(n, (ast.Assign, ast.AugAssign)) and any(
+                    isinstance(t, ast.Name) and t.id == "VARIANTS" for t in (n.targets if isinstance(n, ast.Assign) else [n.target])))]
+                src = ast.unparse(tree)
+            except SyntaxError:
+                pass
+            names.update(re.findall(r"[A-Za-z_][A-Za-z0-9_]*", src))
         _known_cache = names
     return _known_cache
 
